@@ -498,9 +498,9 @@ func (sc MaskScenario) driverLine() string {
 	var ops []string
 	for _, o := range sc.Ops {
 		if o.K == "d" {
-			ops = append(ops, fmt.Sprintf("d/%d", o.ID))
+			ops = append(ops, fmt.Sprintf("d/%d", rawID(sc.Icpt, o.ID, o.Sp)))
 		} else {
-			ops = append(ops, fmt.Sprintf("u/%d/w%d.%d", o.ID, o.L, o.T))
+			ops = append(ops, fmt.Sprintf("u/%d/w%d.%d", rawID(sc.Icpt, o.ID, o.Sp), o.L, o.T))
 		}
 	}
 	var subs []string
@@ -539,6 +539,9 @@ func (sc MaskScenario) driverLine() string {
 		if !done[i] {
 			sched = append(sched, "s"+strconv.Itoa(i))
 		}
+	}
+	if sc.Icpt != "" {
+		return fmt.Sprintf("runi %d %s %s %s %s", icptMod, is, strings.Join(ops, ";"), strings.Join(subs, ","), strings.Join(sched, ","))
 	}
 	return fmt.Sprintf("run %s %s %s %s", is, strings.Join(ops, ";"), strings.Join(subs, ","), strings.Join(sched, ","))
 }
